@@ -28,6 +28,7 @@ from typing import TYPE_CHECKING
 from igraph import Vertex
 
 from explorerscript.ssb_converting.decompiler.write_handlers.abstract import AbstractWriteHandler, FallbackToJump
+from explorerscript.ssb_converting.ssb_special_ops import OP_JUMP
 
 if TYPE_CHECKING:
     from explorerscript.ssb_converting.ssb_decompiler import ExplorerScriptSsbDecompiler
@@ -53,10 +54,17 @@ class ForeverContinueWriteHandler(AbstractWriteHandler):
             logger.warning("While decompiling, tried to generate continue; outside loop!")
             raise FallbackToJump()
         if not self._continue_is_implicit():
-            self.decompiler.source_map_add_opcode(self.start_vertex["op"].offset)
+            self._source_map_add_jump()
             self.decompiler.write_stmnt("continue;  // may be redundant")
         return None
 
     def _continue_is_implicit(self) -> bool:
         # TODO: Not implemented, is probably not really possible, unless we do a multi-pass solution.
         return False
+
+    def _source_map_add_jump(self) -> None:
+        # build_loops also inserts breaks / continues behind ops that are not jumps (they carry the offset of that
+        # op); only a real Jump op is represented by this statement.
+        op = self.start_vertex["op"]
+        if op.maybe_root is not None and op.root.op_code.name == OP_JUMP:
+            self.decompiler.source_map_add_opcode(op.offset)
